@@ -1228,6 +1228,13 @@ def run(ctx, model_ok=True):
     classical_corpus(ctx)
     classical_random(ctx, 500 if quick else 4000)
     constructors(ctx, quick)
+    # one game through the multiprocessing-pool branch of classical_value (> 1000 strategies of the enumerated player) whose
+    # optimum sits at the LAST strategy index (every answer = the highest answer): a dropped tail of the enumeration shows
+    prg = ctx.rng
+    shp = (3, 2, 7, 10)
+    base = prg.integers(0, 4, size=shp) / 8.0
+    base[:, 1, :, :] += 0.5
+    check_classical(ctx, rand_prob(prg, shp[2], shp[3], "01"), base, 1, "frac", "pool-tail")
     if not quick:
         # multiprocessing-pool branch of classical_value (> 1000 iterations), after a possible repair as well
         rng = ctx.rng
